@@ -275,6 +275,14 @@ pub fn gen_spec(rng: &mut Rng, p: &Profile) -> Spec {
         spec.components.push(("Items".into(), s_arr(inl(o2))));
         obj_names.push("Item".into());
     }
+    if p.wild && rng.chance(1, 10) {
+        // a component named like a type the generated code itself relies on (open finding C02-component-shadows-prelude)
+        let nm = ["Result", "Option", "Vec", "String", "Box"][rng.below(5)];
+        if !names.iter().any(|n| n == nm) {
+            spec.components.push((nm.into(), s_obj(vec![("id", inl(s_int())), ("note", inl(s_string())), ("tags", inl(s_arr(inl(s_string()))))], &["id"])));
+            obj_names.push(nm.into());
+        }
+    }
     let all_names: Vec<String> = names.clone();
     // ---- operations
     let nops = 1 + rng.below(p.max_ops);
@@ -314,7 +322,9 @@ pub fn gen_spec(rng: &mut Rng, p: &Profile) -> Spec {
         let opid = if p.synth_names && rng.chance(1, 5) {
             None
         } else {
-            let pool: Vec<&str> = if p.hard_names { ids.to_vec() } else { ids[..8].to_vec() };
+            // wild: operationIds that coincide with methods the client type has anyway (open finding)
+            let wild_ids = ["new", "from_env", "fromEnv", "with_auth", "authenticate"];
+            let pool: Vec<&str> = if p.wild && rng.chance(1, 12) { wild_ids.to_vec() } else if p.hard_names { ids.to_vec() } else { ids[..8].to_vec() };
             let v = pick_distinct(rng, &pool, 1, &mut op_taken);
             if v.is_empty() {
                 continue;
